@@ -165,6 +165,12 @@ def _html_to_nodes(
             new_children = []
             for child in children:
                 if child.name == "p":
+                    if new_children and not (
+                        isinstance(new_children[-1], Data)
+                        and new_children[-1].data.endswith("\n\n")
+                    ):
+                        # a paragraph also ends what is before it
+                        new_children.append(Data("\n\n"))
                     new_children.extend(child.children)
                     new_children.append(Data("\n\n"))
                 else:
